@@ -5,8 +5,10 @@ package main
 // constants local to AppendHuffmanString (huffman.go) as Lean lists/numbers.
 
 import (
+	"bytes"
 	"fmt"
 	"go/ast"
+	"go/printer"
 	"go/token"
 	"path/filepath"
 	"strings"
@@ -237,6 +239,22 @@ func init() {
 		b.WriteString(trieDecl)
 		b.WriteString("/-- Binary decoding tree of (codes, lens), precomputed by the extractor so that the kernel\nneed not evaluate 256 insertions; Proofs.Lemmas.Huffman.checkWalks_ok / checkLeaves_ok prove it is\nexactly the tree of the two tables. -/\n")
 		b.WriteString("def trieLit : Trie :=\n  " + tl + "\n\n")
+		// the lazy initialisation of the decode tree: body of getRootHuffmanNode, one statement per
+		// "; "-separated item, printed from the AST (comments and layout do not matter)
+		fd, err := p.Func("getRootHuffmanNode")
+		if err != nil {
+			return "", err
+		}
+		var stmts []string
+		for _, st := range fd.Body.List {
+			var sb bytes.Buffer
+			if err := printer.Fprint(&sb, p.Fset, st); err != nil {
+				return "", err
+			}
+			stmts = append(stmts, strings.Join(strings.Fields(sb.String()), " "))
+		}
+		b.WriteString("/-- Statements of `getRootHuffmanNode` (the tree must only be reachable through the `sync.Once`). -/\n")
+		b.WriteString(fmt.Sprintf("def rootInitBody : String := %q\n\n", strings.Join(stmts, "; ")))
 		for _, c := range []string{"eosCode", "eosNBits", "eosPadByte"} {
 			v, ok := lc[c]
 			if !ok {
